@@ -61,6 +61,19 @@ def finish(prop, tier, seed, results, wall, known, no_evidence=False):
             u["unit"] = name
             undecided.append(u)
 
+    # --- thorough tier: bounded Kani harnesses (a failed harness is a violation with CBMC's failed checks) ---
+    extra = {}
+    if tier == "thorough":
+        try:
+            import kani_tier
+            extra = kani_tier.run(prop, seed)
+            for kr in extra.get("kani_bounded", {}).get("results", []):
+                if kr["status"] == "FAILED":
+                    violations.append({"region": "kani:" + kr["harness"], "msg": "assertion failed in bounded Kani harness (%s)" % kr["bound"],
+                                       "detail": "; ".join(kr["failed_checks"]), "repo_loc": "public API", "unit": "kani"})
+        except Exception as e:
+            extra = {"kani_bounded": {"error": "%s: %s" % (type(e).__name__, e)}}
+
     # --- try to obtain a concrete failing input for each violation (never decides; only informs) ---
     replay_paths = []
     if violations:
@@ -124,13 +137,6 @@ def finish(prop, tier, seed, results, wall, known, no_evidence=False):
             samples.append({"unit": name, "function": fn, "woven_clauses": c})
     lvl = LEVELS.get(prop, {"level": "proof"})
     smt_total = sum(f["smt_s"] for f in fns)
-    extra = {}
-    if tier == "thorough":
-        try:
-            import kani_tier
-            extra = kani_tier.run(prop, seed)
-        except Exception as e:
-            extra = {"kani": {"error": "%s: %s" % (type(e).__name__, e)}}
     cov = {
         "obligations": obligations,
         "discharged": discharged,
